@@ -17,7 +17,7 @@ func init() {
 const npT = "(*pkg/innerring/processors/netmap.Processor)"
 
 func runC38(p *core.Prog, r *core.Report) {
-	r.Explain = "Decides on all CFG paths: (R1) processAddNode co-signs the admission only after IsAlphabet()==true, IsValidScript()==(true,nil) for the request's main transaction, Node2Info()==nil and nodeValidator.Verify()==nil; (R2) the composite validator returns nil only after its loop over ALL configured validators finished, and returns the first validator error immediately; (R3) the epoch tick asks the chain for exactly EpochCounter()+1 and only under IsAlphabet()==true, and nothing else in the inner ring calls netmap NewEpoch except the operator's notary request (tabled). Not covered: which validators are configured, histories of notifications and ticks."
+	r.Explain = "Decides on all CFG paths: (R1) processAddNode co-signs the admission only after IsAlphabet()==true, IsValidScript()==(true,nil) for the request's main transaction, Node2Info()==nil and nodeValidator.Verify()==nil; (R2) the composite validator returns nil only after its loop over ALL configured validators finished, and returns the first validator error immediately; (R3) the epoch tick asks the chain for exactly EpochCounter()+1 and only under IsAlphabet()==true, and nothing else in the inner ring calls netmap NewEpoch except the operator's notary request (tabled). (R4) the indexer behind IsAlphabet marks its cache fresh only after both fetches succeeded. Not covered: which validators are configured, histories of notifications and ticks."
 	r1 := r.Rule("C38.R1", "processAddNode: NotarySignAndInvokeTX dominated by alphabet, valid script, parsed node info and validator acceptance", 4)
 	vs := func(s core.Site) bool { return s.Name == mcT+".IsValidScript" }
 	core.CheckEffects(p, r1, core.EffectRule{Fn: npT + ".processAddNode", Min: 1,
@@ -129,4 +129,7 @@ func runC38(p *core.Prog, r *core.Report) {
 		}
 	}
 	core.CheckCallers(p, r3, p.Funcs(), []core.CallerRule{{Sink: newEpoch, MinSites: 1, Allowed: map[string]string{npT + ".processNewEpochTick": "the epoch timer tick"}}})
+	// ---------------- R4 the membership answer behind the gate is never a stale one after a failed refresh
+	r4 := r.Rule("C38.R4", "the inner ring indexer marks its cache fresh only after both lists were fetched successfully (shared with C35.R2): a failed refresh cannot make IsAlphabet answer from stale or zero-valued indexes", 2)
+	indexerStampOnlyAfterRefresh(p, r, r4)
 }
